@@ -282,7 +282,10 @@ impl Directive {
                     if let Some(Operand::S(include)) = values.first() {
                         let path = PathBuf::from(include);
                         let path = if path.is_relative() {
-                            let mut current_path = current_path.parent().unwrap().to_path_buf();
+                            let mut current_path = current_path
+                                .parent()
+                                .map(|p| p.to_path_buf())
+                                .unwrap_or_default();
                             current_path.push(path);
                             current_path
                         } else {
